@@ -89,6 +89,7 @@ def setCfg (st : DSt) (kv : String) : Option DSt :=
     | "q.enqChecksClosed" => do let b ← boolOfString? v; pure { st with cfg := { st.cfg with enqChecksClosed := b } }
     | "q.applyStopsAtFailure" => do let b ← boolOfString? v; pure { st with cfg := { st.cfg with applyStopsAtFailure := b } }
     | "q.waitErrKeepsRef" => do let b ← boolOfString? v; pure { st with cfg := { st.cfg with waitErrKeepsRef := b } }
+    | "q.vlogScratchLocal" => do let _ ← boolOfString? v; pure st   -- pinned fact, not a model parameter
     | "q.getDeletedStd" => do let b ← boolOfString? v; pure { st with cfg := { st.cfg with getDeletedStd := b } }
     | "lsm.compactReleasesReservation" => do let b ← boolOfString? v; pure { st with kcfg := { releaseOnFail := b } }
     | "q.enqFailKeepsRef" => do let b ← boolOfString? v; pure { st with cfg := { st.cfg with enqFailKeepsRef := b } }
